@@ -58,6 +58,7 @@ def r17_1(prog, rep):
     sem = flag[0]
     # bits set in the flag word
     bits = {}
+    bit0_nodes = []
     for b, i, x, line in cfg.all_elems():
         for l, kind, n in writes(x):
             if lv(l) == sem and n.get("k") == "bin" and n["op"] == "|=":
@@ -66,13 +67,17 @@ def r17_1(prog, rep):
                     bits.setdefault(int_value(r["r"]), []).append(show(r["l"]))
                 else:
                     bits.setdefault(0, []).append(show(r))
+                    bit0_nodes.append(cfg.resolve(r))
     rep.extra["R17.1_layout"] = {"day_shift": D, "bday_shift": B, "flag_bits": {str(k): v for k, v in bits.items()}}
     if set(bits) <= {0, 1} and 0 in bits and 1 in bits and B >= 2 and D > B:
         rep.ok(rid, "snarf_shift/packing", w.loc(), "(%s << %d) ^ (%s << %d) ^ flags{bit0 sign, bit1 direction}" % (dn, D, bn, B))
     else:
         rep.fail(rid, "snarf_shift/packing", w.loc(), "packing layout not {days<<D, bdays<<B>=2, flags in bits 0/1}: D=%d B=%d flags=%s" % (D, B, sorted(bits)))
     sign_terms = " ".join(bits.get(0, []))
-    if "< 0" in sign_terms:
+    from ..flow import cond_atoms as _ca
+    is_neg_test = any(len(a) == 5 and a[0] == "<" and int_value(a[4]) == 0 and int_value(a[3]) is None
+                      for nd_ in bit0_nodes for a in _ca(nd_, True))
+    if is_neg_test:
         rep.ok(rid, "snarf_shift/sign-bit", w.loc(), "bit 0 carries the sign of the business-day count (%s)" % sign_terms)
     else:
         rep.fail(rid, "snarf_shift/sign-bit", w.loc(), "bit 0 is not set from a `< 0` test: %s" % sign_terms)
@@ -112,7 +117,7 @@ def r17_1(prog, rep):
     raw = []
     for b, i, x, line in sr.cfg.all_elems():
         for n in walk(sr.cfg.resolve(x)):
-            if n.get("k") == "bin" and n["op"] in (">>", "&") and lv(n["l"]).endswith("->shift"):
+            if n.get("k") == "bin" and n["op"] in (">>", "&") and lv(strip_casts(sr.expand(n["l"]))).endswith("->shift"):
                 raw.append((n["op"], int_value(n["r"]), n.get("line", line)))
     for op, c, ln in raw:
         key = "send_rrul/raw-shift %s %s" % (op, c)
